@@ -3,3 +3,27 @@ claim("C16", "exploration",
       "property-based testing (rapid) + exhaustive small-scope enumeration against a validity predicate",
       "Generated-input search over histograms x scales with an explicit validity predicate (sum == scale, presence preserved, ordered alphabet). Exhaustive over a 4-symbol sub-domain and a directed rare+dominant family, random beyond; gives high confidence but no proof of absence.",
       "Trusts: the predicate restates the property; totals <= 2^27; present symbols <= scale.", "DESIGN.md 4/C16")
+claim("C01", "exploration",
+      "property-based testing (rapid): generated configurations x data shapes, round-trip oracle, independent container parser for non-triviality",
+      "Round-trip oracle over rapid-drawn (chain, entropy, block size, jobs, checksum, hint, header/headerless, data shape, Write/Read partitions); finds configuration- and data-dependent losses the fixed-input unit tests cannot. Search, not proof.",
+      "Trusts: in-memory sink/source are healthy; hints >= 0; blocks <= 16 MiB.", "DESIGN.md 4/C01")
+claim("C06", "exploration",
+      "property-based testing (rapid) over I/O chunking histories + exhaustive constant piece sizes 1..64; differential oracle against the always-filling run",
+      "Metamorphic/differential oracle: any partition of the compressed bytes into short reads and of the plain bytes into Writes must give the same result as the unchunked run.",
+      "Trusts: the source never returns (0,nil); CLI read loop is under C19.", "DESIGN.md 4/C06")
+claim("C12", "exploration",
+      "property-based testing (rapid): histogram-recipe blocks through each entropy codec inside a longer bitstream; round-trip + bit-exact consumption + sentinel oracle",
+      "Generated blocks (histogram shapes x lengths around chunk thresholds) are encoded between a byte prefix and a sentinel; decode must restore the block and leave the bit cursor exactly where the encoder stopped.",
+      "Trusts: blocks start byte-aligned as in every caller.", "DESIGN.md 4/C12")
+claim("C13", "exploration",
+      "property-based testing (rapid): each transform on generated blocks with canary-guarded caller-owned buffers; inverse-of-forward, bound and clean-decline oracle",
+      "Per-transform forward/inverse pairs on detector-satisfying and adversarial data with data-type hints injected by reflection; checks the advertised bound, buffer canaries, src immutability on decline, and exact inversion into a decoder-sized buffer.",
+      "Trusts: the harness's replica of the factory's context keys for the direct mode.", "DESIGN.md 4/C13")
+claim("C14", "exploration",
+      "model-based property testing (rapid): random bit-level programs checked step by step against a bit-vector reference model, with re-partitioned read-back",
+      "Writer and reader programs are compared with a trivially correct []bit model after every operation (counters, values, byte image, refusal after Close).",
+      "Trusts: operation arguments stay in their documented domain.", "DESIGN.md 4/C14")
+claim("C15", "exploration",
+      "exhaustive enumeration of names x spellings and of all chains of length <= 3 for the name laws, plus rapid-drawn mixed-case chains; differential oracle against the canonical spelling",
+      "Every spelling must produce the canonical spelling's exact stream and decode; name<->type laws enumerated exhaustively for chains up to 3.",
+      "Trusts: cases whose canonical spelling does not round-trip are C01's business and are skipped (counted).", "DESIGN.md 4/C15")
